@@ -35,10 +35,12 @@ import (
 	"reflect"
 	"sort"
 	"strings"
+	"sync"
 	"time"
 
 	"github.com/iden3/go-merkletree-sql/v2"
 	"github.com/iden3/go-merkletree-sql/v2/db/memory"
+	"github.com/iden3/go-schema-processor/v2/loaders"
 	"github.com/iden3/go-schema-processor/v2/merklize"
 	"github.com/iden3/go-schema-processor/v2/verifiable"
 	"github.com/piprate/json-gold/ld"
@@ -86,14 +88,17 @@ type CaseInput struct {
 }
 
 type runObs struct {
-	opts []merklize.MerklizeOption
-	spec []string // "safe:true" ...
-	out  mzrun.Outcome
-	root *big.Int
-	n    int
+	opts       []merklize.MerklizeOption
+	defaultNil bool     // process-wide default loader is nil during the call
+	loaderOpt  string   // "case": WithDocumentLoader(case loader); "nil": WithDocumentLoader(nil); "": no loader option
+	spec       []string // "safe:true" ...
+	out        mzrun.Outcome
+	root       *big.Int
+	n          int
 }
 
 type ccase struct {
+	flaky    []flakyRun
 	in       CaseInput
 	doc      any
 	stripped any
@@ -111,11 +116,12 @@ type tableRow struct {
 }
 
 type drv struct {
-	cfg    *common.Config
-	rep    *common.Report
-	loader *ctxload.Loader
-	cases  []*ccase
-	nZ     int
+	defaultNil bool // merklize.SetDocumentLoader(nil) is in force
+	cfg        *common.Config
+	rep        *common.Report
+	loader     *ctxload.Loader
+	cases      []*ccase
+	nZ         int
 }
 
 // ---------------------------------------------------------------- JSON helpers
@@ -258,7 +264,20 @@ func jsonCoq(f *coqgen.File, v any) string {
 // ---------------------------------------------------------------- implementation runs
 
 func (d *drv) merklize(doc []byte, spec []string) runObs {
-	opts := []merklize.MerklizeOption{merklize.WithDocumentLoader(d.loader)}
+	return d.merklizeWith(doc, "case", d.loader, spec)
+}
+
+// merklizeWith: loaderOpt "case" passes WithDocumentLoader(l), "nil" passes
+// WithDocumentLoader(nil), "" passes no loader option (the process-wide default
+// loader is used: see drv.defaultNil).
+func (d *drv) merklizeWith(doc []byte, loaderOpt string, l ld.DocumentLoader, spec []string) runObs {
+	var opts []merklize.MerklizeOption
+	switch loaderOpt {
+	case "case":
+		opts = append(opts, merklize.WithDocumentLoader(l))
+	case "nil":
+		opts = append(opts, merklize.WithDocumentLoader(nil))
+	}
 	for _, s := range spec {
 		switch s {
 		case "safe:true":
@@ -268,12 +287,48 @@ func (d *drv) merklize(doc []byte, spec []string) runObs {
 		}
 	}
 	mz, out := mzrun.Merklize(doc, opts...)
-	r := runObs{opts: opts, spec: spec, out: out}
+	r := runObs{opts: opts, spec: spec, out: out, loaderOpt: loaderOpt, defaultNil: d.defaultNil}
 	if out.Class == "ok" {
 		r.root = mz.Root().BigInt()
 		r.n = len(mzrun.MapEntries(mz))
 	}
 	return r
+}
+
+// scriptedLoader serves what the case loader serves until the failFrom-th call
+// (1-based, counted over all URLs), and reports a fetch failure from then on;
+// failFrom <= 0: never fails.  It records every call.
+type scriptedLoader struct {
+	mu       sync.Mutex
+	inner    ld.DocumentLoader
+	failFrom int
+	log      []loadCall
+}
+
+type loadCall struct {
+	URL    string `json:"url"`
+	Served bool   `json:"served"`
+}
+
+func (l *scriptedLoader) LoadDocument(u string) (*ld.RemoteDocument, error) {
+	l.mu.Lock()
+	n := len(l.log) + 1
+	fail := l.failFrom > 0 && n >= l.failFrom
+	l.log = append(l.log, loadCall{URL: u, Served: !fail})
+	l.mu.Unlock()
+	if fail {
+		return nil, ld.NewJsonLdError(ld.LoadingDocumentFailed, fmt.Errorf("scripted loader: connection refused (call %d)", n))
+	}
+	return l.inner.LoadDocument(u)
+}
+
+type flakyRun struct {
+	FailFrom int        `json:"fail_from"`
+	Safe     bool       `json:"safe"`
+	Log      []loadCall `json:"log"`
+	a1, a2   []string   // URLs served while Normalize / Compact ran
+	modelled bool       // the two phases can be told apart and each URL has one answer per phase
+	obs      runObs
 }
 
 func sameObs(a, b runObs) bool {
@@ -444,6 +499,52 @@ func (d *drv) evalCase(rep *common.Report, in CaseInput) *ccase {
 	if !sameObs(c.runs[3], safe) || !sameObs(c.runs[4], unsafe) {
 		rep.Fail("c15-option-order", "the last WithSafeMode option does not win", in)
 	}
+	// --- loader configuration must not influence the mode
+	noRemote := true
+	if m, ok := doc.(map[string]any); ok {
+		for _, cx := range ldArrayify(m["@context"]) {
+			if _, isURL := cx.(string); isURL {
+				noRemote = false
+			}
+		}
+	}
+	var cfgRuns []runObs
+	switch {
+	case d.defaultNil && noRemote:
+		// merklize.SetDocumentLoader(nil) is in force; inline contexts never consult a loader
+		cfgRuns = append(cfgRuns,
+			d.merklizeWith(docB, "", nil, nil),
+			d.merklizeWith(docB, "", nil, []string{"safe:true"}),
+			d.merklizeWith(docB, "", nil, []string{"safe:false"}),
+			d.merklizeWith(docB, "nil", nil, nil),
+			d.merklizeWith(docB, "nil", nil, []string{"safe:false"}))
+		rep.Count("loader-config:nil-default")
+	case !d.defaultNil:
+		// the process-wide default loader is the case loader: no loader option at all
+		cfgRuns = append(cfgRuns,
+			d.merklizeWith(docB, "", nil, nil),
+			d.merklizeWith(docB, "", nil, []string{"safe:true"}),
+			d.merklizeWith(docB, "", nil, []string{"safe:false"}))
+		rep.Count("loader-config:default-loader")
+	}
+	for _, r := range cfgRuns {
+		if r.out.Class == "panic" || r.out.Class == "hang" {
+			rep.Fail("c15-"+r.out.Class, fmt.Sprintf("MerklizeJSONLD (default loader nil=%v, loader option %q, %v): %s", r.defaultNil, r.loaderOpt, r.spec, r.out.Msg), in)
+			continue
+		}
+		want := safe
+		if len(r.spec) > 0 && r.spec[len(r.spec)-1] == "safe:false" {
+			want = unsafe
+		}
+		if !sameObs(r, want) {
+			rep.Fail("c15-loader-config-changes-mode", fmt.Sprintf("MerklizeJSONLD with default loader nil=%v, loader option %q, options %v gives %s, the same options with an explicit loader give %s: the safe-mode setting depends on the loader configuration", r.defaultNil, r.loaderOpt, r.spec, r.out.Class, want.out.Class), in)
+		}
+		c.runs = append(c.runs, r)
+	}
+	// --- a loader that stops answering in the middle of the call
+	if !noRemote {
+		d.flakyRuns(rep, c, docB, in, safe, unsafe)
+	}
 	// --- documents without undefined members: both modes succeed with equal roots
 	c.su = d.merklize(strB, []string{"safe:false"})
 	ss := d.merklize(strB, []string{"safe:true"})
@@ -544,6 +645,96 @@ func (d *drv) evalCase(rep *common.Report, in CaseInput) *ccase {
 	}
 	rep.Sample(map[string]any{"doc": string(docB), "dropped": in.Dropped, "safe": safe.out.Class, "unsafe": unsafe.out.Class})
 	return c
+}
+
+// flakyRuns merklizes the document through scripted loaders that fail from the
+// n-th fetch on, for every n up to the number of fetches of a whole call.
+func (d *drv) flakyRuns(rep *common.Report, c *ccase, docB []byte, in CaseInput, safe, unsafe runObs) {
+	// fetch sequence of a whole call: Normalize's expansion, then Compact's
+	probe := &scriptedLoader{inner: d.loader}
+	pr := d.merklizeWith(docB, "case", probe, []string{"safe:false"})
+	total := len(probe.log)
+	if pr.out.Class != "ok" || total == 0 || total%2 != 0 {
+		rep.Count("flaky:no-probe")
+		return
+	}
+	k := total / 2
+	dup := map[string]bool{}
+	halvesEqual, oncePerPhase := true, true
+	for i := 0; i < k; i++ {
+		if probe.log[i].URL != probe.log[k+i].URL {
+			halvesEqual = false
+		}
+		if dup[probe.log[i].URL] {
+			oncePerPhase = false
+		}
+		dup[probe.log[i].URL] = true
+	}
+	unswallowed := 0
+	for _, dr := range in.Dropped {
+		if !dr.Swallowed {
+			unswallowed++
+		}
+	}
+	for n := 1; n <= total; n++ {
+		for _, sm := range []bool{true, false} {
+			l := &scriptedLoader{inner: d.loader, failFrom: n}
+			spec := []string{"safe:false"}
+			if sm {
+				spec = []string{"safe:true"}
+			}
+			r := d.merklizeWith(docB, "case", l, spec)
+			fr := flakyRun{FailFrom: n, Safe: sm, Log: append([]loadCall{}, l.log...), obs: r, modelled: halvesEqual && oncePerPhase}
+			for i, cl := range fr.Log {
+				if !cl.Served {
+					continue
+				}
+				if i < k {
+					fr.a1 = append(fr.a1, cl.URL)
+				} else {
+					fr.a2 = append(fr.a2, cl.URL)
+				}
+			}
+			phase := "normalize"
+			if n > k {
+				phase = "compact"
+			}
+			rep.Count("flaky:" + phase + ":" + r.out.Class)
+			if r.out.Class == "panic" || r.out.Class == "hang" {
+				rep.Fail("c15-"+r.out.Class, fmt.Sprintf("MerklizeJSONLD with a loader failing from fetch %d on: %s", n, r.out.Msg), in)
+				continue
+			}
+			input := map[string]any{"stream": in.Stream, "doc": in.Doc, "contexts": in.Contexts, "dropped": in.Dropped,
+				"non_absolute": in.NonAbsolute, "expected_entries": in.Expected, "injected": in.Injected, "sites": in.Sites,
+				"flaky": map[string]any{"fail_from": n, "safe": sm, "fetches": fr.Log}}
+			if sm && r.out.Class == "ok" && unswallowed > 0 {
+				what := fmt.Sprintf("safe mode returned success for a document with the undefined member %s when the context fetch #%d of the call (during %s) failed", pathString(firstUnswallowed(in.Dropped)), n, phase)
+				if unsafe.out.Class == "ok" && r.root.Cmp(unsafe.root) == 0 {
+					what += "; the field is silently dropped (root = root of the document without it)"
+				}
+				rep.Fail("c15-load-failure-hides-undefined", what, input)
+			} else if r.out.Class == "ok" {
+				// a fetch failed and the call still succeeded: at least the result must be the regular one
+				ref := unsafe
+				if sm {
+					ref = safe
+				}
+				if !sameObs(r, ref) {
+					rep.Fail("c15-load-failure-changes-result", fmt.Sprintf("a loader failing from fetch %d on (during %s): success with a root different from the regular one", n, phase), input)
+				}
+			}
+			c.flaky = append(c.flaky, fr)
+		}
+	}
+}
+
+func firstUnswallowed(ds []Dropped) []any {
+	for _, dr := range ds {
+		if !dr.Swallowed {
+			return dr.Path
+		}
+	}
+	return nil
 }
 
 // evalAll evaluates the inputs with a small worker pool and merges the results
@@ -1031,6 +1222,8 @@ func (d *drv) credentialStream(n int, fixed *credParams) {
 	r := d.cfg.Rng
 	// ToCoreClaim(nil) uses the package-level default loader
 	merklize.SetDocumentLoader(d.loader)
+	d.defaultNil = false
+	defer func() { merklize.SetDocumentLoader(nil); d.defaultNil = true }()
 	for i := 0; i < n; i++ {
 		var clean, dirty verifiable.W3CCredential
 		if err := json.Unmarshal([]byte(credentialJSON), &clean); err != nil {
@@ -1188,10 +1381,30 @@ func (d *drv) writeShards() error {
 			var runs []string
 			for _, r := range c.runs {
 				var os []string
+				switch r.loaderOpt {
+				case "case":
+					os = append(os, "RLoader")
+				case "nil":
+					os = append(os, "RNilLoader")
+				}
 				for _, sp := range r.spec {
 					os = append(os, "RSafe "+strings.TrimPrefix(sp, "safe:"))
 				}
-				runs = append(runs, fmt.Sprintf("([%s], %s)", strings.Join(os, "; "), obsCoq(r)))
+				runs = append(runs, fmt.Sprintf("(%s, [%s], %s)", coqgen.Bool(r.defaultNil), strings.Join(os, "; "), obsCoq(r)))
+			}
+			var flaky []string
+			for _, fr := range c.flaky {
+				if !fr.modelled {
+					continue
+				}
+				strs := func(l []string) string {
+					var o []string
+					for _, u := range l {
+						o = append(o, f.Str(u))
+					}
+					return "[" + strings.Join(o, "; ") + "]"
+				}
+				flaky = append(flaky, fmt.Sprintf("(%s, %s, %s, %s)", strs(fr.a1), strs(fr.a2), coqgen.Bool(fr.Safe), obsCoq(fr.obs)))
 			}
 			dr := "None"
 			if c.haveDrop {
@@ -1201,9 +1414,9 @@ func (d *drv) writeShards() error {
 				}
 				dr = "(Some [" + strings.Join(l, "; ") + "])"
 			}
-			cs = append(cs, fmt.Sprintf("mkc15 %d [%s]\n  (%s)\n  (%s)\n  [%s]\n  [%s] (%s) %s",
+			cs = append(cs, fmt.Sprintf("mkc15 %d [%s]\n  (%s)\n  (%s)\n  [%s]\n  [%s]\n  [%s] (%s) %s",
 				i, strings.Join(ld, "; "), jsonCoq(f, c.doc), jsonCoq(f, c.stripped), strings.Join(tbl, ";\n   "),
-				strings.Join(runs, "; "), obsCoq(c.su), dr))
+				strings.Join(runs, "; "), strings.Join(flaky, "; "), obsCoq(c.su), dr))
 			d.rep.Case(name, i, c.in)
 		}
 		f.Add("Definition cases_ : list c15case := " + coqgen.List(cs) + ".")
@@ -1224,6 +1437,13 @@ func Run(cfg *common.Config) (*common.Report, error) {
 	rep.Correspondence = "JsonLD.SafeRun.c15_mismatches: MerklizeJSONLD / merklize_doc / strip_undefined / undefined_occ (JsonLD/Safe.v: own model of json-gold context processing and of the expansion walk up to the fate of every object key, option plumbing of merklize.go) vs merklize.MerklizeJSONLD under 5 option lists, on the document and on the document without its undefined members; roots of documents come from a table recorded through json-gold Normalize + EntriesFromRDF + AddEntriesToMerkleTree"
 	rep.Rule = "documents from random schema trees (docgen: depth<=3, type-/property-scoped contexts, prefixes, id/type aliases, arrays, named graphs, inline or remote contexts) + a context of look-alike terms; 0..3 undefined members (10 kinds) and 0..2 defined look-alikes (7 kinds) injected at top level / nested / array member / named-graph member / explicit @graph; streams setwrap (undefined member below @set), nonabs (keys with ':' that are no absolute IRI), credential (W3CCredential.Merklize/ToCoreClaim). distinct = distinct document bytes; non-trivial = at least one injected member (every case)."
 	d := &drv{cfg: cfg, rep: rep, loader: ctxload.New()}
+	// The process-wide default loader is switched off for the whole run (every call
+	// passes its loader explicitly, except the runs that test exactly this
+	// configuration and the credential stream, which installs the case loader) and
+	// is put back to the package's initial value at the end.
+	merklize.SetDocumentLoader(nil)
+	d.defaultNil = true
+	defer merklize.SetDocumentLoader(loaders.NewDocumentLoader(nil, ""))
 	if cfg.Replay != "" {
 		var rf struct {
 			Input CaseInput `json:"input"`
